@@ -134,33 +134,193 @@ def _memo_carrying(cls):
             _memo_assign(find_func(cls.body, "__add__"), "new_style", "Style.__add__"))
 
 
-_RENDER_CALL = "append(style.render(text, color_system=color_system, legacy_windows=legacy_windows))"
+# ---------------------------------------------------------------- Console._render_buffer, semantically
+import copy as _copy
+import itertools as _it
+
+
+def _is_pure(node):
+    """attribute chains, names, constants, `not <pure>`: re-evaluating them changes nothing"""
+    if isinstance(node, (ast.Name, ast.Constant)):
+        return True
+    if isinstance(node, ast.Attribute):
+        return _is_pure(node.value)
+    if isinstance(node, ast.UnaryOp) and isinstance(node.op, ast.Not):
+        return _is_pure(node.operand)
+    return False
+
+
+def _resolve_aliases(fn):
+    """inline every local that is bound exactly once, at function level, to a pure expression
+    (`append = output.append`, `color_system = self._color_system`, `not_terminal = not self.is_terminal`, ...)"""
+    fn = _copy.deepcopy(fn)
+    stores = {}
+    for a in fn.args.args + fn.args.kwonlyargs:
+        stores[a.arg] = stores.get(a.arg, 0) + 1
+    for node in ast.walk(fn):
+        if isinstance(node, ast.Name) and isinstance(node.ctx, (ast.Store, ast.Del)):
+            stores[node.id] = stores.get(node.id, 0) + 1
+    for _ in range(8):
+        alias = {}
+        for st in fn.body:
+            if isinstance(st, ast.Assign) and len(st.targets) == 1 and isinstance(st.targets[0], ast.Name) \
+                    and stores.get(st.targets[0].id) == 1 and _is_pure(st.value):
+                names = {n.id for n in ast.walk(st.value) if isinstance(n, ast.Name)}
+                if all(stores.get(n, 0) <= 1 for n in names):       # what it reads is never rebound either
+                    alias[st.targets[0].id] = st.value
+        if not alias:
+            break
+
+        class Sub(ast.NodeTransformer):
+            def visit_Name(self, node):
+                if isinstance(node.ctx, ast.Load) and node.id in alias:
+                    return _copy.deepcopy(alias[node.id])
+                return node
+        fn.body = [Sub().visit(st) for st in fn.body
+                   if not (isinstance(st, ast.Assign) and len(st.targets) == 1 and isinstance(st.targets[0], ast.Name)
+                           and st.targets[0].id in alias)]
+    return fn
+
+
+def _cond(node, env, what):
+    """truth value of a loop-body condition under an assignment of the three atoms"""
+    if isinstance(node, ast.BoolOp):
+        vals = [_cond(v, env, what) for v in node.values]
+        return all(vals) if isinstance(node.op, ast.And) else any(vals)
+    if isinstance(node, ast.UnaryOp) and isinstance(node.op, ast.Not):
+        return not _cond(node.operand, env, what)
+    if isinstance(node, ast.Name) and node.id in env:
+        return env[node.id]
+    if _d(node) == _expr("self.is_terminal"):
+        return env["self.is_terminal"]
+    raise Untranslatable(f"{what}: condition outside the modelled atoms: {ast.dump(node)[:70]}")
+
+
+def _emission(call, out_name, names, what):
+    """`<out>.append(text)` -> 'text';  `<out>.append(style.render(text, color_system=self._color_system,
+    legacy_windows=self.legacy_windows))` -> 'render'"""
+    text, style, _ctl = names
+    if not (isinstance(call, ast.Call) and _d(call.func) == _expr(f"{out_name}.append") and len(call.args) == 1 and not call.keywords):
+        raise Untranslatable(f"{what}: statement is not {out_name}.append(<one argument>)")
+    a = call.args[0]
+    if isinstance(a, ast.Name) and a.id == text:
+        return "text"
+    if isinstance(a, ast.Call) and _d(a.func) == _expr(f"{style}.render"):
+        kw = {k.arg: _d(k.value) for k in a.keywords}
+        pos = [_d(x) for x in a.args]
+        if "text" in kw:
+            pos = [kw.pop("text")] + pos
+        if pos != [_expr(text)]:
+            raise Untranslatable(f"{what}: style.render is not given the segment text")
+        if kw != {"color_system": _expr("self._color_system"), "legacy_windows": _expr("self.legacy_windows")}:
+            raise Untranslatable(f"{what}: style.render keywords are not color_system=self._color_system, "
+                                 f"legacy_windows=self.legacy_windows")
+        return "render"
+    raise Untranslatable(f"{what}: appended value is neither the text nor style.render(...)")
+
+
+def _run_body(stmts, env, out_name, names, what):
+    """(emitted, stopped) of one loop iteration"""
+    emitted = None
+    for st in stmts:
+        if isinstance(st, ast.Continue):
+            return emitted, True
+        if isinstance(st, ast.Pass):
+            continue
+        if isinstance(st, ast.If):
+            branch = st.body if _cond(st.test, env, what) else st.orelse
+            e, stop = _run_body(branch, env, out_name, names, what)
+            if e is not None:
+                if emitted is not None:
+                    raise Untranslatable(f"{what}: one segment is appended twice")
+                emitted = e
+            if stop:
+                return emitted, True
+            continue
+        if isinstance(st, ast.Expr):
+            e = _emission(st.value, out_name, names, what)
+            if emitted is not None:
+                raise Untranslatable(f"{what}: one segment is appended twice")
+            emitted = e
+            continue
+        raise Untranslatable(f"{what}: unsupported statement {type(st).__name__} in the loop")
+    return emitted, False
 
 
 def _render_buffer(repo):
+    """Decision table of the loop body over (style truthy, is_control, is_terminal), after inlining local
+    aliases: which of {nothing, text, style.render(...)} is appended.  Only what the model branches on is
+    pinned: the table, the arguments of style.render, the NO_COLOR step before the loop, the join."""
+    what = "_render_buffer"
     tree, _ = parse(repo, "rich/console.py")
-    fn = find_func(find_class(tree, "Console").body, "_render_buffer")
+    fn = _resolve_aliases(find_func(find_class(tree, "Console").body, "_render_buffer"))
+    if [a.arg for a in fn.args.args] != ["self", "buffer"]:
+        raise Untranslatable(f"{what}: unexpected signature")
     b = _body(fn)
-    dumps = [_d(s) for s in b]
-    for need in ("color_system = self._color_system", "legacy_windows = self.legacy_windows",
-                 "not_terminal = not self.is_terminal",
-                 "if self.no_color and color_system:\n    buffer = Segment.remove_color(buffer)"):
-        if _stmts(need)[0] not in dumps:
-            raise Untranslatable(f"_render_buffer: statement `{need.splitlines()[0]}` not found")
-    if dumps.index(_stmts("if self.no_color and color_system:\n    buffer = Segment.remove_color(buffer)")[0]) > \
-            [i for i, s in enumerate(b) if isinstance(s, ast.For)][0]:
-        raise Untranslatable("_render_buffer: colour removal after the loop")
-    loops = [s for s in b if isinstance(s, ast.For)]
-    if len(loops) != 1 or [getattr(e, "id", None) for e in getattr(loops[0].target, "elts", [])] != ["text", "style", "is_control"] or _d(loops[0].iter) != _expr("buffer"):
-        raise Untranslatable("_render_buffer: loop header changed")
-    body = [_d(s) for s in loops[0].body]
-    asis = _stmts("if style:\n    " + _RENDER_CALL + "\nelif not (not_terminal and is_control):\n    append(text)")
-    fixed = _stmts("if not_terminal and is_control:\n    continue\nif style:\n    " + _RENDER_CALL + "\nelse:\n    append(text)")
-    if body == asis:
-        return False
-    if body == fixed:
+    loops = [(i, st) for i, st in enumerate(b) if isinstance(st, ast.For)]
+    if len(loops) != 1:
+        raise Untranslatable(f"{what}: expected exactly one loop")
+    li, loop = loops[0]
+    if not (isinstance(loop.target, ast.Tuple) and len(loop.target.elts) == 3 and all(isinstance(e, ast.Name) for e in loop.target.elts)
+            and _d(loop.iter) == _expr("buffer") and not loop.orelse):
+        raise Untranslatable(f"{what}: loop header is not `for text, style, is_control in buffer`")
+    names = [e.id for e in loop.target.elts]
+    # the output list: bound once to [], joined in the return
+    ret = b[-1]
+    joined = ret.value if isinstance(ret, ast.Return) else None
+    skip = []
+    if isinstance(joined, ast.Name):        # `rendered = "".join(output); return rendered`
+        defs = [st for st in b if isinstance(st, ast.Assign) and len(st.targets) == 1
+                and isinstance(st.targets[0], ast.Name) and st.targets[0].id == joined.id]
+        stores = sum(1 for n in ast.walk(fn) if isinstance(n, ast.Name) and n.id == joined.id and isinstance(n.ctx, ast.Store))
+        if len(defs) != 1 or stores != 1 or b.index(defs[0]) < li:
+            raise Untranslatable(f"{what}: returned name is not bound once after the loop")
+        skip, joined = defs, defs[0].value
+    ret = ast.Return(value=joined) if joined is not None else ret
+    if not (isinstance(ret, ast.Return) and isinstance(ret.value, ast.Call) and isinstance(ret.value.func, ast.Attribute)
+            and ret.value.func.attr == "join" and isinstance(ret.value.func.value, ast.Constant) and ret.value.func.value.value == ""
+            and len(ret.value.args) == 1 and isinstance(ret.value.args[0], ast.Name)):
+        raise Untranslatable(f"{what}: does not return \"\".join(<list>)")
+    out_name = ret.value.args[0].id
+    inits = [st for st in b if isinstance(st, (ast.Assign, ast.AnnAssign))
+             and any(isinstance(t, ast.Name) and t.id == out_name for t in (st.targets if isinstance(st, ast.Assign) else [st.target]))]
+    if len(inits) != 1 or not (isinstance(inits[0].value, ast.List) and not inits[0].value.elts) or b.index(inits[0]) > li:
+        raise Untranslatable(f"{what}: the output list is not initialised once to [] before the loop")
+    # everything else outside the loop must leave `buffer` and the output list alone, except the NO_COLOR step
+    strip = None
+    for i, st in enumerate(b):
+        if st is loop or st is b[-1] or st is inits[0] or st in skip:
+            continue
+        touches = any((isinstance(n, ast.Name) and n.id in ("buffer", out_name) and isinstance(n.ctx, ast.Store))
+                      or (isinstance(n, ast.Attribute) and isinstance(n.value, ast.Name) and n.value.id == out_name)
+                      for n in ast.walk(st))
+        if not touches:
+            continue
+        if strip is None and i < li and isinstance(st, ast.If) and not st.orelse \
+                and [_d(x) for x in st.body] == _stmts("buffer = Segment.remove_color(buffer)"):
+            t = st.test
+            parts = sorted(_d(v) for v in t.values) if isinstance(t, ast.BoolOp) and isinstance(t.op, ast.And) else None
+            if parts != sorted([_expr("self.no_color"), _expr("self._color_system")]):
+                raise Untranslatable(f"{what}: colour removal is not guarded by `self.no_color and self._color_system`")
+            strip = st
+            continue
+        raise Untranslatable(f"{what}: statement at line {st.lineno} changes the buffer or the output")
+    if strip is None:
+        raise Untranslatable(f"{what}: no `buffer = Segment.remove_color(buffer)` step before the loop")
+    table = {}
+    for s_, c_, t_ in _it.product((False, True), repeat=3):
+        env = {names[1]: s_, names[2]: c_, "self.is_terminal": t_}
+        e, _stop = _run_body(loop.body, env, out_name, names, what)
+        table[(s_, c_, t_)] = e
+    fixed = {(s_, c_, t_): (None if (c_ and not t_) else ("render" if s_ else "text"))
+             for s_, c_, t_ in _it.product((False, True), repeat=3)}
+    asis = {(s_, c_, t_): ("render" if s_ else (None if (c_ and not t_) else "text"))
+            for s_, c_, t_ in _it.product((False, True), repeat=3)}
+    if table == fixed:
         return True
-    raise Untranslatable("_render_buffer: loop body has an unknown shape")
+    if table == asis:
+        return False
+    raise Untranslatable(f"{what}: loop body implements an unknown decision table {sorted(table.items())}")
 
 
 @generator("AnsiFacts.v")
@@ -178,10 +338,13 @@ def gen_ansi_facts(repo):
     out += "Definition RENDER_LINK_PARTS : list (list Z) :=\n  [" + ";\n   ".join(strlit(p) for p in link_parts) + "].\n\n"
     out += "(* Style._make_ansi_codes reuses the `_ansi` memo only for the colour system it was computed for *)\n"
     out += f"Definition ANSI_MEMO_KEYED_BY_SYSTEM : bool := {'true' if keyed else 'false'}.\n\n"
-    out += ("(* Console._render_buffer: `if not_terminal and is_control: continue` comes BEFORE `if style:`\n"
-            "   (false: rich 9.10.0 as found, `if style: ... elif not (not_terminal and is_control): ...`);\n"
-            "   also checked: style.render(text, color_system=color_system, legacy_windows=legacy_windows),\n"
-            "   `if self.no_color and color_system: buffer = Segment.remove_color(buffer)` before the loop *)\n")
+    out += ("(* Console._render_buffer, decision table of the loop body over (style truthy, is_control, is_terminal)\n"
+            "   after inlining local aliases.  true: a control segment on a non-terminal is dropped whatever its style,\n"
+            "   else style.render(...) if the style is truthy, else the text.  false (rich 9.10.0 as found): truthy style\n"
+            "   -> render, else dropped if control on a non-terminal, else text.  Also checked: the arguments\n"
+            "   style.render(text, color_system=self._color_system, legacy_windows=self.legacy_windows), the step\n"
+            "   `if self.no_color and self._color_system: buffer = Segment.remove_color(buffer)` before the loop,\n"
+            "   the result \"\".join(<list initialised to []>), nothing else touching buffer or the list *)\n")
     out += f"Definition RENDER_BUFFER_CONTROL_GUARD_FIRST : bool := {'true' if guard_first else 'false'}.\n\n"
     out += ("(* does the style built by copy / update_link / without_color / __add__ (general branch) inherit the\n"
             "   `_ansi` memo of its source (`style._ansi = self._ansi`) or start empty (`= None`)? *)\n")
